@@ -8,9 +8,9 @@ from vlib.pyround import to_quantum
 PID = 'C10'
 PROPERTY_FILE = 'Properties/C10.v'
 # generated model parts (translate/) this property's model / proofs really depend on
-GEN_DEPS = ['QuantityImpl']
+GEN_DEPS = ['OpsImpl', 'QuantityImpl']
 MODEL_TARGETS = R.MODEL_TARGETS
-PROOF_TARGETS = ['Proofs/C10Proofs.vo', 'Proofs/C10MoneyProofs.vo']
+PROOF_TARGETS = ['Proofs/GenOpsEq.vo', 'Proofs/C10Proofs.vo', 'Proofs/C10MoneyProofs.vo']
 COQ_HEADER = R.COQ_HEADER
 COQ_CHECK = R.COQ_CHECK
 ISOLATE = True
